@@ -40,9 +40,6 @@ theorem make_vertices_sound (planes : List (V3 ℝ)) (types : List Nat) (a b c :
     intro h0; rw [h0, abs_zero] at hd; norm_num at hd
   exact solve3_spec t hne
 
-example : (⟨1, 0, 0⟩ : V3 ℝ) ∈ makeVertices [⟨1, 0, 0⟩, ⟨0, 1, 0⟩, ⟨0, 0, 1⟩] [0, 1, 2] 1 0 0 → True :=
-  fun _ => trivial
-
 /-- **Completeness up to the rounding grid.** Every point `x` that lies on three planes of the
 table (at increasing positions) with `|det| > thresh` and satisfies every half-space within
 `thresh` is represented in the output: some returned `p` has the same 6-decimal rounding, hence
@@ -72,6 +69,34 @@ example : let R := rows [(⟨1, 0, 0⟩ : V3 ℝ), ⟨0, 1, 0⟩, ⟨0, 0, 1⟩]
   · simp [rows, distOf]
   · simp [tripleDet, V3.det3, V3.dot, V3.cross]; norm_num
   · simp [V3.dot]
+
+/-- the three planes x ≤ 1, y ≤ 1, z ≤ 1 with their single triple -/
+def exBoxRows : List (Row ℝ) := rows [(⟨1, 0, 0⟩ : V3 ℝ), ⟨0, 1, 0⟩, ⟨0, 0, 1⟩] [0, 1, 2] 1 1 1
+
+theorem exBox_triple (t : Row ℝ × Row ℝ × Row ℝ) (h : [t.1, t.2.1, t.2.2].Sublist exBoxRows) :
+    t = ((⟨1, 0, 0⟩, 1), (⟨0, 1, 0⟩, 1), (⟨0, 0, 1⟩, 1)) := by
+  have hlen : exBoxRows = [(⟨1, 0, 0⟩, 1), (⟨0, 1, 0⟩, 1), (⟨0, 0, 1⟩, 1)] := by
+    simp [exBoxRows, rows, distOf]
+  rw [hlen] at h
+  have := h.eq_of_length (by simp)
+  rcases t with ⟨a, b, c⟩
+  simp only [List.cons.injEq, and_true] at this
+  rw [this.1, this.2.1, this.2.2]
+
+/-- `make_vertices` on this table really returns a point near (1,1,1): the hypothesis
+`p ∈ makeVertices …` of `make_vertices_sound` is inhabited -/
+example : ∃ p ∈ makeVertices [(⟨1, 0, 0⟩ : V3 ℝ), ⟨0, 1, 0⟩, ⟨0, 0, 1⟩] [0, 1, 2] 1 1 1,
+    |p.x - 1| ≤ 1 / 1000000 := by
+  obtain ⟨p, hp, _, hx, _⟩ := make_vertices_complete [(⟨1, 0, 0⟩ : V3 ℝ), ⟨0, 1, 0⟩, ⟨0, 0, 1⟩] [0, 1, 2] 1 1 1
+    ((⟨1, 0, 0⟩, 1), (⟨0, 1, 0⟩, 1), (⟨0, 0, 1⟩, 1)) ⟨1, 1, 1⟩
+    (by simp [rows, distOf])
+    (by simp [tripleDet, V3.det3, V3.dot, V3.cross]; norm_num)
+    (by simp [V3.dot]) (by simp [V3.dot]) (by simp [V3.dot])
+    (by intro r hr
+        simp only [rows, distOf, List.zipWith_cons_cons, List.zipWith_nil_right, List.mem_cons,
+          List.not_mem_nil, or_false] at hr
+        rcases hr with rfl | rfl | rfl <;> simp [V3.dot])
+  exact ⟨p, hp, hx⟩
 
 /-- **No duplicates on the rounding grid.** No two returned points have the same 6-decimal
 rounding (`np.unique` on the rounded rows): together with soundness and completeness, every
@@ -121,6 +146,25 @@ theorem make_vertices_exact_of_gap (planes : List (V3 ℝ)) (types : List Nat) (
     intro r hr
     have := hfeas r hr
     rw [dot_comm]; linarith
+
+/-- the gap hypotheses G1, G2 hold for the box table: its only triple has determinant 1 and its
+meeting point (1,1,1) satisfies all three half-spaces exactly -/
+example : IsVertexR exBoxRows ⟨1, 1, 1⟩ →
+    ∃ p ∈ makeVertices [(⟨1, 0, 0⟩ : V3 ℝ), ⟨0, 1, 0⟩, ⟨0, 0, 1⟩] [0, 1, 2] 1 1 1, key p = key ⟨1, 1, 1⟩ := by
+  intro hv
+  have h := (make_vertices_exact_of_gap [(⟨1, 0, 0⟩ : V3 ℝ), ⟨0, 1, 0⟩, ⟨0, 0, 1⟩] [0, 1, 2] 1 1 1
+    (by intro t ht
+        rw [exBox_triple t ht]; right
+        simp [tripleDet, V3.det3, V3.dot, V3.cross]; norm_num)
+    (by intro t ht _
+        rw [exBox_triple t ht]; left
+        intro r hr
+        simp only [rows, distOf, List.zipWith_cons_cons, List.zipWith_nil_right, List.mem_cons,
+          List.not_mem_nil, or_false] at hr
+        rcases hr with rfl | rfl | rfl <;>
+          simp [solve3, tripleDet, V3.det3, V3.dot, V3.cross, V3.smul, V3.sdiv])).2 ⟨1, 1, 1⟩ hv
+  obtain ⟨p, hp, hk, _⟩ := h
+  exact ⟨p, hp, hk⟩
 
 /-! ## get_shape: domains -/
 
@@ -570,6 +614,10 @@ theorem antiprism_spec_partial {n : Nat} (hn : 3 ≤ n) :
       ring_nf
       rw [e1, e2]
       ring
+
+example : ((List.range 3).map (ngonVertex 3 (-(antiprismH 3 : ℝ) / 2) (antiprismArea 3) (Real.pi / (3:ℕ)))
+    ++ (List.range 3).map (ngonVertex 3 ((antiprismH 3 : ℝ) / 2) (antiprismArea 3) 0)).length = 2 * 3 :=
+  (antiprism_spec_partial (n := 3) (by norm_num)).2.1
 
 /-- **Pyramid** (n = 3, 4, 5): n+1 vertices, base at z = −h/4 and apex at z = 3h/4 (so the centroid,
 a quarter of the height above the base, is at the origin), unit volume (base area × height / 3),
